@@ -341,6 +341,12 @@ def run(ctx):
     rank_rule(ctx, "R10.6", ffu, {"speed"}, "the wind speed")
     rank_rule(ctx, "R10.6", fch, {fch.params[0]}, "the friction velocity")
     ctx.require_count("R10.6", 3)
+    # ---- R10.7 the Janssen roughness is solved for the object's *current* tuning: nothing derived from the parameters or the grid is
+    # kept on the source-term object without being refreshed by whatever changes them (shared rule, see statecache.py)
+    from ..statecache import instance_memo_rule as _memo, positive_example as _memo_pos
+    _memo(ctx, "R10.7", [p.get_class("wavephysics.balance.source_term.SourceTerm")], "source-term classes")
+    _memo_pos(ctx, "R10.7")
+    ctx.require_count("R10.7", 2)
     # ---- R10.5 bracket bookkeeping of the Newton/secant/bisection solver the Janssen estimate runs on
     from ..pairs import paired_update_rule
     fnr = p.get_function(NR)
